@@ -2,9 +2,9 @@ package props
 
 import (
 	"fmt"
-	"strings"
 	"io"
 	"os"
+	"strings"
 
 	"github.com/anz-bank/sysl/pkg/parse"
 	"github.com/sirupsen/logrus"
@@ -44,4 +44,3 @@ func firstDiff(a, b string) string {
 	}
 	return fmt.Sprintf("length %d vs %d lines", len(la), len(lb))
 }
-
